@@ -389,10 +389,12 @@ def run(ctx):
     ctx.notes["input_distribution"] = {"sequences": n_seq, "requests": n_req, "requests_ok": n_ok, "request_kinds": kinds_count,
                                        "observed_writes_to_parsed_tree": wcount, "cli_cases": n_cli}
     ctx.assumptions += [
-        "PREMISE of C05_sequences (Section hypothesis res_neutral): the writes that reach the parsed tree even with "
-        "copy-on-lookup (unqualified-import memo, constants returned uncopied and renamed/modified in place, "
-        "ClassModificationArgument hooks bound to self) do not change the result of any later request; not proved, "
-        "validated on every run by the sequence oracle",
+        "a request is modelled as an arbitrary program that reads the parsed tree only through three queries (class "
+        "lookup with import memo / unqualified imports / parent climb; effective value of a constant; class content); "
+        "that the three exact writes are invisible to every such program is PROVED (C05_neutral); that the real flatten "
+        "reads the parsed tree only this way is validated by the sequence oracle and the lookup correspondence",
+        "lookup model: simple names, import packages named from the root, no `encapsulated`, no qualified imports "
+        "(libraries with qualified import clauses are skipped by the lookup correspondence)",
         "flatten is abstracted to its footprint (arbitrary writes inside the looked-up class + allocation); that the real "
         "flatten stays inside it is validated by the snapshot correspondence, not proved (content of flatten: C07/C08)",
         "the result of a request is modelled as a function of the parsed tree at the time of the request",
